@@ -13,6 +13,7 @@ from prosemirror.transform import (
     RemoveNodeMarkStep,
     ReplaceAroundStep,
     ReplaceStep,
+    Step,
     Transform,
 )
 from prosemirror.transform.doc_attr_step import DocAttrStep
@@ -163,7 +164,14 @@ def run(ctx):
         log = []
         raw = []
         for i in range(len(forced) if forced is not None else nops):
-            name, args, thunk = forced[i] if forced is not None else ops.plan_op(rng, info, tr.doc, docs, kinds)
+            if forced is None and tr.steps and rng.random() < 0.08:
+                # a step object that is already part of this history is recorded once more (steps are values: setting
+                # something back to what an earlier step set it to, redoing an edit) — refused like any step if it
+                # no longer applies
+                again = rng.choice(tr.steps)
+                name, args, thunk = "step_again", [again], (lambda s_: lambda tr_: tr_.step(s_))(again)
+            else:
+                name, args, thunk = forced[i] if forced is not None else ops.plan_op(rng, info, tr.doc, docs, kinds)
             snap = (len(tr.steps), len(tr.docs), len(tr.mapping.maps), tr.doc)
             st, val, added = ops.run_op(tr, thunk)
             log.append(ops.describe(name, args) | {"outcome": st, "steps_added": added})
@@ -182,6 +190,9 @@ def run(ctx):
                  sample={"op": "history", "schema": info.name, "doc": str(d)[:120], "ops": [l["op"] for l in log], "steps": len(tr.steps)})
         ctx.count("history_len_%d" % min(len(tr.steps), 8))
         replay = {"schema": info.name, "doc": d.to_json(), "ops": log, "steps": [s.to_json() for s in tr.steps]}
+        if len({id(s) for s in tr.steps}) < len(tr.steps):
+            ctx.count("history_with_a_step_object_recorded_twice")
+        used_elsewhere(tr, docs, replay)
         # replay
         cur = tr.before
         good = tr.before.eq(d)
@@ -201,6 +212,7 @@ def run(ctx):
             ctx.violation("replay", "re-applying the recorded steps to the starting document does not reproduce the recorded documents", replay)
             return
         # undo in reverse
+        used_elsewhere(tr, docs, replay)
         cur = tr.doc
         okundo = True
         failed_at = None
@@ -269,6 +281,57 @@ def run(ctx):
                 if k < len(plain) and plain[k]:
                     ctx.count("sbt-plain:remove-mark-step")
 
+    def used_elsewhere(tr, docs, replay):
+        """the recorded step objects are used somewhere else before the history is looked at again: applied to their own
+        output, to another document of the history, to an unrelated document (a second replica; a probe whether the step
+        still applies) — outcomes ignored.  `steps[i].invert(docs[i])` has to describe the undo of steps[i] on docs[i]
+        whatever happened to the step object in between."""
+        if not tr.steps or rng.random() < 0.5:
+            return
+        for s in rng.sample(tr.steps, min(len(tr.steps), 3)):
+            k = tr.steps.index(s)
+            target = rng.choice([tr.docs[k + 1] if k + 1 < len(tr.docs) else tr.doc, tr.doc, rng.choice(tr.docs), rng.choice(docs)])
+            st, res = outcome(lambda: s.apply(target))
+            ctx.count("history_step_applied_elsewhere:" + ("applies" if st == "ok" and res.doc is not None else "refused"))
+            replay.setdefault("steps_applied_elsewhere", []).append({"step": k, "to": target})    # (written out as text if it comes to a replay)
+
+    def reuse_single(info, d, docs, step, res_doc):
+        """before the undo of a single applied step is checked, the same step object is applied again: to its own result, to
+        other documents — and where it applies there its undo is checked too, after the object has moved on"""
+        if rng.random() >= 0.12:
+            return
+        others = []
+        for target in rng.sample([res_doc, rng.choice(docs), rng.choice(docs)], rng.randint(1, 2)):
+            st, res = outcome(lambda: step.apply(target))
+            ok = st == "ok" and res.doc is not None
+            ctx.count("single_step_applied_again:" + ("applies" if ok else "refused"))
+            if ok and target is not res_doc and not target.eq(d):
+                others.append((target, res.doc))
+        for target, rd in others[:1]:
+            if isinstance(step, SINGLE_UNDO):
+                undo_single(ctx, info, target, step, rd, reqs, metas, "reused", oracle=declared(step, target))
+            elif isinstance(step, c04_marks.MARK_STEPS):
+                c04_marks.single(ctx, info, target, step, rd, reqs, metas, "reused")
+
+    def derived_single(info, d, step, res_doc):
+        """a step that came out of another step is a step like any other: the inverse of an applied step (its undo is the
+        redo), a step decoded from its own JSON"""
+        r = rng.random()
+        if r < 0.03:
+            sti, inv = outcome(lambda: step.invert(d))
+            if sti == "ok" and isinstance(inv, SINGLE_UNDO):
+                stb, back = outcome(lambda: inv.apply(res_doc))
+                if stb == "ok" and back.doc is not None:
+                    ctx.count("derived:invert")
+                    undo_single(ctx, info, res_doc, inv, back.doc, reqs, metas, "derived:invert", oracle=declared(inv, res_doc))
+        elif r < 0.06:
+            stj, s2 = outcome(lambda: Step.from_json(info.schema, step.to_json()))
+            if stj == "ok":
+                st2, res2 = outcome(lambda: s2.apply(d))
+                if st2 == "ok" and res2.doc is not None:
+                    ctx.count("derived:from_json")
+                    undo_single(ctx, info, d, s2, res2.doc, reqs, metas, "derived:from_json", oracle=declared(s2, d))
+
     def bridge_steps(d):
         """aimed: merge two differently typed siblings through an open node of a third type that joins onto both"""
         out = []
@@ -310,13 +373,16 @@ def run(ctx):
                 if isinstance(step, c04_marks.MARK_STEPS):
                     st, res = outcome(lambda: step.apply(d))
                     if st == "ok" and res.doc is not None:
+                        reuse_single(info, d, docs, step, res.doc)
                         c04_marks.single(ctx, info, d, step, res.doc, reqs, metas, "primitive")
                     continue
                 if not isinstance(step, SINGLE_UNDO):
                     continue
                 st, res = outcome(lambda: step.apply(d))
                 if st == "ok" and res.doc is not None:
+                    reuse_single(info, d, docs, step, res.doc)
                     undo_single(ctx, info, d, step, res.doc, reqs, metas, "primitive", oracle=declared(step, d))
+                    derived_single(info, d, step, res.doc)
             if info.name == "bridge":
                 for step in bridge_steps(d):
                     st, res = outcome(lambda: step.apply(d))
